@@ -164,11 +164,14 @@ class DefGen:
             cap = r.random() < 0.8
         return w.capitalize() if cap else w
 
-    def ident(self):
+    def ident(self, multiword=False):
         r = self.rng
         for _ in range(1000):
-            nw = r.choice([1, 1, 2, 2, 3])
+            nw = r.choice([2, 3]) if multiword else r.choice([1, 1, 2, 2, 3])
             ws = [self.word() for _ in range(nw)]
+            if multiword and nw >= 2 and r.random() < 0.6:
+                ws[1] = ws[1].lower()                  # a lower-case word such as 'per'
+
             ident = "_".join(ws)
             key = const_name(ident)
             # UpperCamel/UPPER_SNAKE must be collision free
@@ -198,7 +201,7 @@ class DefGen:
         """Returns literal text with <= 15 significant digits whose value is exactly
         representable in Decimal (<= 18 fractional digits); several literal forms."""
         r = self.rng
-        kind = r.choice(["int", "int", "dec", "dec", "pow10", "pow10", "tiny", "big"])
+        kind = r.choice(["int", "int", "dec", "dec", "pow10", "pow10", "tiny", "big", "long"])
         if kind == "int":
             v = r.choice([2, 3, 5, 7, 12, 24, 60, 128, 1024, 3600, 86400, r.randint(2, 99999)])
             base = str(v)
@@ -217,11 +220,23 @@ class DefGen:
         elif kind == "tiny":
             e = r.randint(4, 12)
             base, frac = "0", "0" * (e - 1) + str(r.randint(1, 999))
+        elif kind == "long":
+            # 16-18 significant digits: exact only in Decimal; f64 holds the correctly rounded double
+            nd = r.randint(16, 18)
+            ip = r.choice([0, 0, r.randint(1, 99)])
+            nfr = nd - (len(str(ip)) if ip else 0)
+            nfr = max(1, min(18, nfr))
+            lead = r.randint(0, max(0, 18 - nfr)) if ip == 0 else 0
+            fp = "0" * lead + "".join(r.choice("0123456789") for _ in range(nfr - 1)) + r.choice("123456789")
+            fp = fp[:18]
+            if fp[-1] == "0":
+                fp = fp[:-1] + "7"
+            base, frac = str(ip), fp
         else:
             base, frac = str(r.randint(10 ** 5, 2 * 10 ** 9)), ""
         if frac:
             text = base + "." + frac
-            if r.random() < 0.2:
+            if r.random() < 0.2 and len(frac) <= 16:
                 text += "0" * r.randint(1, 2)       # 0.0010
         else:
             form = r.choice(["i", "i", "p", "p0"])
@@ -240,7 +255,7 @@ class DefGen:
         used_syms = set()
         d = {"name": name, "derived": derived, "doc": r.choice([None, "Generated quantity " + name]), "ref": None, "units": []}
         if kind == "single":
-            d["units"].append({"ident": self.ident(), "symbol": self.symbol(used_syms), "prefix": None, "scale": None,
+            d["units"].append({"ident": self.ident(multiword=r.random() < 0.7), "symbol": self.symbol(used_syms), "prefix": None, "scale": None,
                                "doc": r.choice([None, "only unit"])})
             d["attrs"] = [0]
             return d
@@ -248,7 +263,7 @@ class DefGen:
             n_units = r.randint(2, 10)
         if kind == "noref":
             for _ in range(n_units):
-                d["units"].append({"ident": self.ident(), "symbol": self.symbol(used_syms), "prefix": None,
+                d["units"].append({"ident": self.ident(multiword=r.random() < 0.4), "symbol": self.symbol(used_syms), "prefix": None,
                                    "scale": None, "doc": r.choice([None, None, "doc " + self.word()])})
             d["attrs"] = list(range(n_units))
             r.shuffle(d["attrs"])
